@@ -7,7 +7,38 @@ does not compile are re-generated alone to confirm the failure before it is repo
 import json, os, shutil, subprocess, concurrent.futures as cf
 from vlib import core, httpcheck as hc, httpgen as hg
 
-DEVS = {"codegen.param_alias_default": "param/alias+default"}
+DEVS = {"codegen.param_alias_default": "param/alias+default", "codegen.api_error_user_type": "error/api-level-user-type",
+        "codegen.recursive_result_type_views": "views/recursive-result-type"}
+
+
+def family_programs(ctx, quick):
+    """Whole-design programs from the other transport families: error tables (C05), security requirement
+    placements (C06), result-type view graphs (C08). Returns [(design, class, label)]."""
+    import hashlib
+    from checks import c05, c06, c08
+    out = []
+    vs = ctx.gen("mc/MC_ErrorMap", "gen/Gen_ErrorMap.cfg", label="Gen ErrorMap (programs)").vectors
+    tables, seen = [], set()
+    for v in vs:
+        k = core.canon(v["table"])
+        if k not in seen:
+            seen.add(k)
+            tables.append(v["table"])
+    if quick:
+        tables = [t for t in tables if hashlib.sha1((core.canon(t) + str(ctx.seed)).encode()).digest()[0] < 26] or tables[:10]
+    for t in tables:
+        designs, _, _ = c05.build([{"table": t}])
+        cls = "error/api-level-user-type" if any(e["level"] == "api" and e["type"] == "custom" for e in t) else "plain"
+        out.append((designs[0], cls, "errors:" + "+".join("%s/%s/%s" % (e["level"], e["type"], e["status"]) for e in t)))
+    vs = ctx.gen("mc/MC_Security", "gen/Gen_Security.cfg", label="Gen Security (programs)").vectors
+    designs, _ = c06.build(vs)
+    if quick:
+        designs = designs[::4]
+    for d in designs:
+        out.append((d, "plain", "security:%s" % d["api"]["name"]))
+    for g in ("G1", "G2", "G3", "G4"):
+        out.append((c08.design(g), "views/recursive-result-type" if g == "G4" else "plain", "views:" + g))
+    return out
 
 
 def design_class(sh):
@@ -116,8 +147,46 @@ def run(ctx):
         for s, o in stages:
             lines.append({"ev": "stage", "stage": s, "outcome": o})
             owners.append(si)
+    # whole-design programs of the other families
+    fam = family_programs(ctx, quick)
+    fdesigns = []
+    for d, cls, label in fam:
+        d = json.loads(json.dumps(d))
+        d["api"]["servers"] = 1
+        fdesigns.append(d)
+    pl3 = hg.Pipeline(ctx, "gen-c01-fam")
+    pl3.prepare(fdesigns, cmds="gen,example", rounds=0)
+    ftodo = [i for i in range(len(fdesigns)) if i not in pl3.failed]
+    with cf.ThreadPoolExecutor(max_workers=8) as ex:
+        for i, rc, out in ex.map(lambda i: compile_all(pl3, i), ftodo):
+            if rc != 0:
+                pl3.failed[i] = ("compile", "error", out[-2000:])
+    fam_info = {}
+    for i, (d, cls, label) in enumerate(fam):
+        pid = len(shapes) + i
+        fam_info[pid] = (fdesigns[i], cls, label, pl3.failed.get(i))
+        ctx.cov["evaluations"] += 1
+        nontrivial.add(label)
+        lines.append({"ev": "prog", "class": cls, "shape": pid})
+        owners.append(pid)
+        if i in pl3.failed:
+            st, outcome, detail = pl3.failed[i]
+            stages = []
+            for sname in ["dsl", "eval", "gen", "example"]:
+                if sname == st:
+                    stages.append((sname, "errors" if (sname == "eval" and outcome == "errors") else ("panic" if outcome == "panic" else "error")))
+                    break
+                stages.append((sname, "ok"))
+            else:
+                stages.append(("typecheck", "error"))
+        else:
+            stages = [("dsl", "ok"), ("eval", "ok"), ("gen", "ok"), ("example", "ok"), ("typecheck", "ok")]
+        for sname, o in stages:
+            lines.append({"ev": "stage", "stage": sname, "outcome": o})
+            owners.append(pid)
+    ctx.log("%d whole-design programs (errors/security/views): %d fail a stage" % (len(fam), len(pl3.failed)))
     ctx.cov["distinct_nontrivial"] = len(nontrivial)
-    ctx.cov["programs"] = len(shapes)
+    ctx.cov["programs"] = len(shapes) + len(fam)
     ctx.cov["designs"] = len(designs)
     ctx.sample({"shape": shapes[0], "class": design_class(shapes[0]), "stages": [l for l in lines[1:6]]})
     known = [d for d in DEVS if d in ctx.known]
@@ -135,6 +204,15 @@ def run(ctx):
         if hwm is None:
             raise core.Infra("no high-water mark from Trace_Toolchain:\n" + r.stdout[-2000:])
         si = rest[hwm - 1][1]
+        if si in fam_info:
+            fd, cls, label, failure = fam_info[si]
+            ctx.violation("C01/%s/%s" % (cls, label.split(":")[0] + ":" + label.split(":", 1)[1][:60]), "accepted design fails a later stage: %s" % str(failure)[:400],
+                          {"design": fd, "class": cls, "label": label, "failure": str(failure)[:3000]})
+            reported += 1
+            rest = [(l, o) for l, o in rest if o != si]
+            if reported >= 10:
+                break
+            continue
         sh = shapes[si]
         a = (sh["pa"] + sh["ra"])[0] if True else None
         di = where[si][0]
@@ -150,7 +228,7 @@ def run(ctx):
     # run B: each recorded deviation must still be needed (the finding still manifests) -> KNOWN-FINDING line
     for dname in known:
         cls = DEVS[dname]
-        sub = [(l, o) for l, o in zip(lines, owners) if design_class(shapes[o]) == cls]
+        sub = [(l, o) for l, o in zip(lines, owners) if (fam_info[o][1] if o in fam_info else design_class(shapes[o])) == cls]
         if not sub:
             continue
         d = ctx.subdir("trace-known")
@@ -159,7 +237,10 @@ def run(ctx):
         ok, hwm, r = ctx.trace_validate("trace/Trace_Toolchain", "trace/Trace_Toolchain.cfg", p, label="trace-without-" + dname)
         if not ok and hwm is not None:
             si = sub[hwm - 1][1]
-            ctx.violation(dname, "design class %s: %s" % (cls, str(confirmed.get(si, (0, "?", 0))[1])[:300]), {"shape": shapes[si]})
+            if si in fam_info:
+                ctx.violation(dname, "design class %s (%s): %s" % (cls, fam_info[si][2], str(fam_info[si][3])[:300]), {"design": fam_info[si][0]})
+            else:
+                ctx.violation(dname, "design class %s: %s" % (cls, str(confirmed.get(si, (0, "?", 0))[1])[:300]), {"shape": shapes[si]})
     if ctx.selftest or not quick:
         selftest(ctx, lines)
 
